@@ -2,7 +2,7 @@
     erasure really deletes something and consumer programs really reach the gated mechanisms *)
 From Coq Require Import String List NArith.
 From ApiFu Require Import Base.Sexp Feat.FeaturesModel Feat.FeaturesSpec Feat.FeaturesProofs Feat.FeaturesReach
-  Feat.FeaturesDocModel Feat.FeaturesDocProofs.
+  Feat.FeaturesDocModel Feat.FeaturesDocProofs Feat.FeaturesFuelProofs.
 Import ListNotations.
 Open Scope string_scope.
 Open Scope list_scope.
@@ -119,4 +119,29 @@ Example W_reachable :
   reachable (erase W []) = map nm ["Query"; "A"; "B"; "I"; "J"; "Int"] /\
   reachable W_orphan = map nm ["Query"; "Int"; "T"] /\
   reachable (erase W_orphan []) = map nm ["Query"; "Int"].
+Proof. vm_compute. repeat split; reflexivity. Qed.
+
+(** composition with C04: the hypotheses of [C13_C04_type_info_eq] hold on C04's own example schema
+    and on the C13 witness in C04's encoding; NewTypeInfo succeeds on C04's example document (so the
+    equation is not None = None) and erasure really deletes something on the witness *)
+From ApiFu Require Vld.Ast Vld.TypeInfoModel Vld.Witness Feat.FeaturesVld.
+Example C04_hypotheses :
+  FeaturesVld.vok Witness.ex_schema = true /\
+  (match TypeInfoModel.type_info true Witness.ex_schema nil Witness.ex_valid with Some _ => true | None => false end) = true /\
+  FeaturesVld.vok FeaturesVld.VW = true /\
+  List.length (Vld.Ast.s_types (FeaturesVld.verase FeaturesVld.VW nil)) = 6%nat /\
+  List.length (Vld.Ast.s_types FeaturesVld.VW) = 7%nat /\
+  (match TypeInfoModel.type_info true FeaturesVld.VW nil FeaturesVld.VD with Some _ => true | None => false end) = true.
+Proof. vm_compute. repeat split; reflexivity. Qed.
+
+(** the premise of [C13_selection_set_fuel_suffices] holds for D1 with n = 3 (field, spread, field)
+    and with the bound the check uses; a fragment that spreads itself fits no height *)
+Definition D_cyclic : sdoc :=
+  {| d_frags := [ {| fr_name := nm "A"; fr_id := 3; fr_tc := nm "Query";
+                     fr_sels := SCons (SSpread 4 (nm "A")) SNil |} ];
+     d_sels := SCons (SSpread 2 (nm "A")) SNil |}.
+Example D1_fits :
+  fitsb (d_frags D1) 3 (d_sels D1) = true /\ fitsb (d_frags D1) 2 (d_sels D1) = false /\
+  fitsb (d_frags D1) (sdoc_fuel D1 - 2) (d_sels D1) = true /\
+  fitsb (d_frags D_cyclic) 50 (d_sels D_cyclic) = false.
 Proof. vm_compute. repeat split; reflexivity. Qed.
